@@ -324,17 +324,20 @@ type replayArt struct {
 }
 
 type cfgStats struct {
-	Name         string `json:"config"`
-	Executions   int64  `json:"executions"`
-	ChoicePoints int64  `json:"choice_points"`
-	Steps        int64  `json:"steps"`
-	MaxPoints    int    `json:"max_choice_points"`
-	Bound        string `json:"deviation_bound"`
-	Wires        int    `json:"distinct_wire_sequences"`
-	Deliveries   int    `json:"distinct_delivery_orders"`
-	Complete     bool   `json:"complete"`
-	Failing      int64  `json:"failing_executions"`
-	Seconds      float64
+	Name           string `json:"config"`
+	Executions     int64  `json:"executions"`
+	ChoicePoints   int64  `json:"choice_points"`
+	Steps          int64  `json:"steps"`
+	MaxPoints      int    `json:"max_choice_points"`
+	Bound          string `json:"deviation_bound"`
+	Wires          int    `json:"distinct_wire_sequences"`
+	Deliveries     int    `json:"distinct_delivery_orders"`
+	Complete       bool   `json:"complete"`
+	Failing        int64  `json:"failing_executions"`
+	TwinExecutions int64  `json:"enqueue_first_twin_executions,omitempty"`
+	TwinCheck      string `json:"interleaved_vs_enqueue_first,omitempty"`
+	TwinRefuted    bool   `json:"reduction_argument_refuted,omitempty"`
+	Seconds        float64
 }
 
 // tuneGC: every packet is ~1 MB and is freshly allocated about nine times by the code under
@@ -385,6 +388,30 @@ func exploreConfig(r *mc.Run, w *world, cfg *config, stop func() bool) cfgStats 
 	}, cfg.MaxDev, stop)
 	st.Executions, st.MaxPoints, st.Complete = cs.Executions, cs.MaxPoints, cs.Complete && !stop()
 	st.Wires, st.Deliveries = len(wires), len(dels)
+	if cfg.Interleaved && st.Complete {
+		// the reduction argument behind the enqueue-first configurations, checked: every wire
+		// sequence seen with the send service interleaved is also produced enqueue-first
+		twin := *cfg
+		twin.Interleaved, twin.MaxDev = false, -1
+		tw := map[string]bool{}
+		tcs := mc.ExploreChoices(func(c *mc.Chooser) {
+			res := runSchedule(w, &twin, c, false)
+			tw[res.wire] = true
+			st.TwinExecutions++
+		}, -1, stop)
+		if tcs.Complete && !stop() {
+			missing := 0
+			for k := range wires {
+				if !tw[k] {
+					missing++
+				}
+			}
+			st.TwinCheck = fmt.Sprintf("%d interleaved wire sequences, %d enqueue-first wire sequences, %d of the former not among the latter", len(wires), len(tw), missing)
+			if missing > 0 {
+				st.TwinRefuted = true
+			}
+		}
+	}
 	st.Seconds = time.Since(start).Seconds()
 	return st
 }
@@ -523,10 +550,20 @@ func main() {
 	raceStarted := make(chan bool, 1)
 	go func() { // start the race pass as soon as its binary exists
 		<-rj.done
-		if rj.err == "" {
-			raceDone = rj.runAsync(r, raceProcs)
+		secs := 25.0
+		if !r.Quick() {
+			secs = 300
+		}
+		if left := time.Until(deadline).Seconds() - 4; left < secs {
+			secs = left
+		}
+		if rj.err == "" && secs >= 6 {
+			raceDone = rj.runAsync(r, raceProcs, secs)
 			raceStarted <- true
 		} else {
+			if rj.err == "" {
+				rj.err = "the -race binary was ready too late (less than 10 s of budget left)"
+			}
 			raceStarted <- false
 		}
 	}()
@@ -535,12 +572,17 @@ func main() {
 		K.MaxDataChunkSize, K.MaxPacketSize, K.MaxMessageSize, K.SendQueueCap, K.InboxCap)
 
 	cov := map[string]any{}
-	// 1. sequential: sizes x topics, malformed / undefined-topic frames
+	// 1. sequential: sizes x topics, malformed / undefined-topic frames, stop during receive
+	// (on its own world, concurrently with the schedule exploration)
 	seq := &seqStats{outcomes: map[string]int{}}
-	if !*noSeqFlag {
-		seq = runSequentialSmall(r, seqWorld)
-	}
-	fmt.Printf("sequential (%.1fs): %d size x topic cases, %d malformed/undefined-topic frame cases, outcome classes: %s\n", time.Since(t0).Seconds(), seq.sizeCases, seq.malformedCases, strings.Join(seq.outcomeList(), ", "))
+	seqDone := make(chan struct{})
+	go func() {
+		defer close(seqDone)
+		if !*noSeqFlag {
+			seq = runSequentialSmall(r, seqWorld)
+		}
+		fmt.Printf("sequential (%.1fs): %d size x topic cases, %d malformed/undefined-topic/stop-during-receive cases, outcome classes: %s\n", time.Since(t0).Seconds(), seq.sizeCases, seq.malformedCases, strings.Join(seq.outcomeList(), ", "))
+	}()
 
 	// 2. schedules: configurations in parallel, each explored sequentially on its own world.
 	// The exploration stops early enough for the size-limit cases and the race pass to finish.
@@ -591,9 +633,15 @@ func main() {
 		if !st.Complete {
 			r.Exhaustive = false
 		}
+		if st.TwinRefuted {
+			r.Exhaustive = false
+			r.Note("config %s: REDUCTION ARGUMENT REFUTED: %s", st.Name, st.TwinCheck)
+		}
 		fmt.Printf("config %-34s executions=%-6d choice_points=%-7d steps=%-8d deviation_bound=%-9s distinct: wire sequences=%-5d delivery orders=%-4d complete=%v %.1fs\n",
 			st.Name, st.Executions, st.ChoicePoints, st.Steps, st.Bound, st.Wires, st.Deliveries, st.Complete, st.Seconds)
 	}
+
+	<-seqDone
 
 	// 3. sequential: the message size limit
 	var lim []string
@@ -628,7 +676,7 @@ func main() {
 	reportRace(r, rr)
 
 	cov["states"] = int(totExec) + seq.sizeCases + seq.malformedCases + len(lim)
-	cov["transitions"] = totSteps
+	cov["transitions"] = totSteps + int64(seq.steps)
 	cov["traces_validated_against_impl"] = int(totExec) + seq.sizeCases + seq.malformedCases + len(lim)
 	cov["explanation"] = "states = executions (complete schedules of the real MultiConn code, each judged); transitions = scheduling steps executed (sender steps + send-service steps); choice_points = steps at which more than one action was enabled"
 	cov["executions"] = totExec
@@ -637,7 +685,13 @@ func main() {
 	cov["distinct_delivery_orders_sum"] = delsTotal
 	cov["per_config"] = done
 	cov["max_choice_points_in_one_execution"] = maxPoints
-	cov["deviation_bound_completed"] = "unbounded for all configurations except those marked I: (see per_config)"
+	var bounded []string
+	for _, st := range done {
+		if st.Bound != "unbounded" {
+			bounded = append(bounded, fmt.Sprintf("%s: <= %s non-default choices (complete=%v)", st.Name, st.Bound, st.Complete))
+		}
+	}
+	cov["deviation_bound_completed"] = map[string]any{"unbounded": len(done) - len(bounded), "bounded": bounded}
 	cov["sequential_size_topic_cases"] = seq.sizeCases
 	cov["sequential_malformed_cases"] = seq.malformedCases
 	cov["sequential_outcome_classes"] = seq.outcomeList()
